@@ -424,4 +424,30 @@ Section ExpProofs.
     - left. transitivity (p_abar pf - p_d pf + p_d pf); [ring|]. rewrite Hz. ring.
     - right. transitivity (c - cstar + cstar); [ring|]. rewrite Hz. ring.
   Qed.
+  (* ---------- positions: exchanging two revealed messages needs equal generators ---------- *)
+  Lemma dot_combine_app : forall (A C B D : list F), length A = length C ->
+    dot' (combine (A ++ B) (C ++ D)) = dot' (combine A C) + dot' (combine B D).
+  Proof.
+    induction A as [|a A IH]; intros [|c C] B D Hl; cbn in Hl; try discriminate.
+    - cbn. ring.
+    - cbn [app combine dot]. rewrite (IH C B D) by lia. ring.
+  Qed.
+
+  Lemma swap_dot_lemma G1 gi G2 gj G3 M1 mi M2 mj M3 :
+    length G1 = length M1 -> length G2 = length M2 ->
+    dot' (combine (G1 ++ gi :: G2 ++ gj :: G3) (M1 ++ mi :: M2 ++ mj :: M3))
+    = dot' (combine (G1 ++ gi :: G2 ++ gj :: G3) (M1 ++ mj :: M2 ++ mi :: M3)) ->
+    gi = gj \/ mi = mj.
+  Proof.
+    intros L1 L2 E.
+    rewrite !(dot_combine_app G1 _ _ _ L1) in E. cbn [combine dot] in E.
+    rewrite !(dot_combine_app G2 _ _ _ L2) in E. cbn [combine dot] in E.
+    assert (Hz : (gi - gj) * (mi - mj) = 0).
+    { set (X := dot' (combine G1 M1)) in *. set (Y := dot' (combine G2 M2)) in *. set (Z := dot' (combine G3 M3)) in *.
+      transitivity ((X + (gi * mi + (Y + (gj * mj + Z)))) - (X + (gi * mj + (Y + (gj * mi + Z))))); [ring|].
+      rewrite E. ring. }
+    apply mul_zero_cases in Hz. destruct Hz as [Hz|Hz]; [left|right].
+    - transitivity (gi - gj + gj); [ring|]. rewrite Hz. ring.
+    - transitivity (mi - mj + mj); [ring|]. rewrite Hz. ring.
+  Qed.
 End ExpProofs.
